@@ -743,6 +743,15 @@ class Query(object):
 
     def encode(self):
         q = "/".join(x.encode() for x in self.segments)
+        if (
+            len(self.segments) > 1
+            and isinstance(self.segments[0], TransformQuerySegment)
+            and self.segments[0].header is None
+            and isinstance(self.segments[-1], TransformQuerySegment)
+            and self.segments[-1].header is not None
+        ):
+            # without a leading header the first segment would be re-read as a resource path
+            q = "-/" + q
         if self.is_resource_query():
             if not q.startswith("-"):
                 q = "-R/" + q
